@@ -82,6 +82,9 @@ def run_case(sh, s, d, case):
     clock.install(clock.FakeClock())
     ZODB.DemoStorage.random = random.Random(s + 1)
     kind = rnd.choice(['file', 'file', 'file', 'mapping', 'demo'])
+    # one history in seven moves under a DemoStorage half way: the base then has a history of its own, and historical points
+    # inside it are served by the base through the demo storage
+    based = random.Random(s + 5).random() < 0.15 and kind in ('file', 'mapping')
     st = {'file': lambda: FSM.FileStorage(os.path.join(d, 'Data.fs')), 'mapping': ZODB.MappingStorage.MappingStorage,
           'demo': ZODB.DemoStorage.DemoStorage}[kind]()
     db = ZODB.DB(st)
@@ -164,6 +167,16 @@ def run_case(sh, s, d, case):
         h['tm'].abort()
         return True
     for i in range(nops):
+        if based and i == nops // 2:
+            for h in hist:
+                h['conn'].close()
+            del hist[:]
+            # (the first DB stays open: closing it would close the storage that now serves as the base)
+            changes = FSM.FileStorage(os.path.join(d, 'Changes.fs')) if random.Random(s + 6).random() < 0.5 else None
+            db = ZODB.DB(ZODB.DemoStorage.DemoStorage(base=st, changes=changes))
+            kind = 'demo-over-%s-with-history' % kind
+            trace.append('(demo storage pushed over the history so far)')
+            sh.count('histories_continued_in_a_demo_storage_over_them')
         graphgen.build(db, rnd, 1, can_undo=(kind == 'file'), trace=trace)
         record()
         last = db.lastTransaction()
@@ -276,7 +289,7 @@ def run_case(sh, s, d, case):
                     sh.violation('c15:%s:newest-transaction-bound-refused' % kind, {'kw': repr(kw), 'last': last}, case)
                     return None
         # pack now and then
-        if kind != 'demo' and rnd.random() < 0.12 and len(snaps) > 2:
+        if not kind.startswith('demo') and rnd.random() < 0.12 and len(snaps) > 2:
             T = rnd.choice([t for (t, sn) in snaps[1:]])
             try:
                 db.pack(TimeStamp(T).timeTime() + 0.0005)
